@@ -26,7 +26,7 @@ TO.time = prims.time          # PolledTimeout on the virtual clock
 PROPERTY = 'C14'
 LEVEL = 'model_checking'
 EXPLANATION = ('bounded model checking of the sequentialised real stream multiplexer on cooperative primitives and a virtual '
-               'clock: device packet order, one or two preemptions and thread picks are symbolic; CrossHair/z3 exhausts the paths')
+               'clock: device packet order, one or two preemptions and thread picks are symbolic; CrossHair/z3 exhausts the paths. The schedule/duration variables are pinned by bisection (O(log n) solver decisions per path) and the pinned schedule then runs natively on the sequentialised code: z3 partitions and exhausts the domain under the preconditions, it does not reason symbolically inside a path.')
 
 _G = {'threading': prims.threading, 'queue': prims.queue, 'time': prims.time}
 SeqTransport, _O1 = Z.encode_subclass(P.AdbStreamTransport,
@@ -44,7 +44,7 @@ def FUNCTIONS():
 BOUNDS = {'streams': '2 open streams (local ids 1, 2)',
           'device': 'stream 1 sends WRTE "a", WRTE "b"; stream 2 sends WRTE "x" then CLSE; merged in a symbolic order; the device OKAYs every host WRTE',
           'host threads': 'scenario A: one reader per stream; scenario B: a writer (5 bytes, maxdata 2 -> 3 chunks) and a reader on stream 1 while the device sends one WRTE',
-          'schedule': 'quick: one preemption at any step of the run (0..300 / 0..400) to either thread, a symbolic pick when a thread blocks, either thread first; a preemption whose target is in a timed wait of <= 70 ms lets it expire (time skip). thorough adds two preemptions: any pair in the one-chunk scenario, second within 40 (two readers) / 30 (full writer+reader, z and y at the same position) steps of the first; read timeouts 60 ms / write timeout 1 s of virtual time, 10 ms queue polls'}
+          'schedule': 'quick: one preemption at any step of the run (0..300 / 0..400) to either thread, a symbolic pick when a thread blocks, either thread first; a preemption whose target is in a timed wait of <= 70 ms lets it expire (time skip). thorough adds two preemptions: any pair in the one-chunk scenario, second within 25 (two readers) / 30 (full writer+reader with z and y both after the 1st or both after the 3rd WRTE) steps of the first; read timeouts 60 ms / write timeout 1 s of virtual time, 10 ms queue polls'}
 STUBS = ['cooperative Lock/RLock/Condition/Queue/time (vlib/seqz/prims.py)', 'message-level fake adapter (framing is C13): read_message blocks until the device has a packet or the timeout expires',
          'streams are constructed directly in the OPEN state (open/close handshake is C15)']
 ASSUMPTIONS = ['preemption only between statements of the encoded functions']
@@ -177,7 +177,7 @@ def c_two_readers(mi: int, p0: int, t0: int, k0: int) -> bool:
 def c_two_readers_2p(mi: int, p0: int, t0: int, p1: int, t1: int, k0: int) -> bool:
   """
   pre: 0 <= mi <= 5
-  pre: 0 <= p0 <= 300 and p0 < p1 <= 300 and p1 <= p0 + 40 and 0 <= t0 <= 1 and 0 <= t1 <= 1
+  pre: 0 <= p0 <= 300 and p0 < p1 <= 300 and p1 <= p0 + 25 and 0 <= t0 <= 1 and 0 <= t1 <= 1
   pre: k0 == 0
   post: _
   """
@@ -267,7 +267,7 @@ def c_writer_and_reader_2p(ws: int, yb: int, p0: int, t0: int, p1: int, t1: int)
   return untraced(_writer_and_reader, _W2S[pin(ws, 0, 2)], pin(yb, 0, 1), [(pin(p0, 0, 200), pin(t0, 0, 1)), (pin(p1, 0, 200), pin(t1, 0, 1))], [], 'he')
 
 
-@cond(tiers=('thorough',), timeout=12000, split={'wi': (0, 4, 7, 9), 'yb': range(2), 't0': range(2), 't1': range(2)})
+@cond(tiers=('thorough',), timeout=12000, split={'wi': (4, 9), 'yb': range(2), 't0': range(2), 't1': range(2)})
 def c_writer_and_reader_full_2p(wi: int, yb: int, p0: int, t0: int, p1: int, t1: int) -> bool:
   """
   pre: 0 <= wi < len(_W2) and 0 <= yb <= 1
